@@ -307,7 +307,7 @@ func (vm *VisitorModel) countUsedOnlyAsPresence(hs []*handlerInfo, tok string) b
 
 func checkC07(r *Run) propMeta {
 	meta := propMeta{Level: "other",
-		Explanation: "Decides the structural clause of parser faithfulness: (R1) for every (visitor, grammar rule) pair that can be active — computed from the root visitor through every push, with push guards evaluated on every own-level derivation of Cypher.g4 — the rule is handled, rejected with an error, captured as text by a handled ancestor, or is a terminal-free pass-through; otherwise the construct is silently dropped or re-attributed and is reported at the frontier. Handled rules must observe each information terminal (a terminal not determined by the child-rule sequence), by count where the grammar makes the count significant. (R2) the Cypher emitter reads every non-payload field of every model type it handles. (R3) the range-literal token switch covers every terminal the grammar allows there. NOT decided: value-level round-trip equality (escape decoding, numeric text), which needs execution.",
+		Explanation: "Decides the structural clause of parser faithfulness: (R1) for every (visitor, grammar rule) pair that can be active — computed from the root visitor through every push, with push guards evaluated on every own-level derivation of Cypher.g4 — the rule is handled, rejected with an error, captured as text by a handled ancestor, or is a terminal-free pass-through; otherwise the construct is silently dropped or re-attributed and is reported at the frontier. Handled rules must observe each information terminal (a terminal not determined by the child-rule sequence), by count where the grammar makes the count significant. (R2) the Cypher emitter reads every non-payload field of every model type it handles. (R3) the range-literal token switch covers every terminal the grammar allows there. (R4) the emitter's float formatting stays inside the grammar's real-literal language: strconv.FormatFloat in the emitter uses the 'f' format, or an exponent format only if ExponentDecimalReal accepts the '+' that Go writes. NOT decided: value-level round-trip equality (escape decoding, numeric values), which needs execution.",
 		Assumptions: []string{"ANTLR walker contract", "generated parser implements Cypher.g4 (rule-reference and named-token sets cross-checked on every run)", "derivations are unrolled to two repetitions"},
 		TrustedBase: []string{"go/types", "this analyser"}}
 	if err := r.Load("./..."); err != nil {
@@ -320,6 +320,7 @@ func checkC07(r *Run) propMeta {
 	reportActivity(r, vm, g, act, "C07-R1")
 	checkEmitterCoverage(r, "C07-R2-emitter-field")
 	checkRangeLiteral(r, vm, g)
+	checkNumberLanguage(r, g)
 	r.Floor("C07-R1-pair", 150)
 	r.Floor("C07-R1-info-terminal", 10)
 	r.Floor("C07-R2-emitter-field", 60)
@@ -482,4 +483,81 @@ func (vm *VisitorModel) tokenLiteralValue(v *types.Var) string {
 		}
 	}
 	return "?"
+}
+
+// checkNumberLanguage (R4): the text the emitter writes for a floating point literal must lie in the language of the
+// grammar's real literals.  strconv.FormatFloat's 'e'/'E'/'g'/'G' formats write the exponent with an explicit sign
+// ("2.5e+06"); they are admissible only if the grammar's ExponentDecimalReal accepts a '+' after the exponent marker.
+// The 'f' format writes only digits, '.', and a leading '-', which the grammar always accepts.
+func checkNumberLanguage(r *Run, g *Grammar) {
+	const rule = "C07-R4-number-language"
+	body, ok := g.Lexer["ExponentDecimalReal"]
+	if !ok {
+		r.Undecide("C07-R4: lexer rule ExponentDecimalReal not found in Cypher.g4")
+		return
+	}
+	plusAllowed := strings.Contains(body, "'+'")
+	p := r.MustPkg("cypher/models/cypher/format")
+	n := 0
+	for _, f := range p.Syntax {
+		ast.Inspect(f, func(node ast.Node) bool {
+			call, ok := node.(*ast.CallExpr)
+			if !ok {
+				return true
+			}
+			fn := calleeOf(p.TypesInfo, call)
+			if fn == nil || fn.Pkg() == nil {
+				return true
+			}
+			fd := enclosingFuncDecl(p, call.Pos())
+			where := "?"
+			if fd != nil {
+				where = funcDeclName(fd)
+			}
+			switch {
+			case fn.Pkg().Path() == "strconv" && fn.Name() == "FormatFloat" && len(call.Args) == 4:
+				n++
+				construct := where + ":FormatFloat"
+				tv := p.TypesInfo.Types[call.Args[1]]
+				if tv.Value == nil {
+					r.Fail(rule, construct, call.Pos(), "the float format is not a constant: the emitted text cannot be shown to stay inside the grammar's real literals")
+					return true
+				}
+				format := tv.Value.ExactString()
+				switch format {
+				case "102": // 'f'
+					r.Pass(rule, construct, call.Pos(), "format 'f' writes digits, '.', '-' only; inside RegularDecimalReal / the integer literals")
+				case "101", "69", "103", "71": // e E g G
+					if plusAllowed {
+						r.Pass(rule, construct, call.Pos(), "exponent format, and ExponentDecimalReal accepts a '+' sign")
+					} else {
+						r.Fail(rule, construct, call.Pos(), "format %q writes large and small magnitudes with an explicitly signed exponent (2.5e+06) but the grammar's ExponentDecimalReal is `%s`, which has no '+': the emitted text of an accepted query is rejected when parsed again", rune(atoiSafe(format)), body)
+					}
+				default:
+					r.Fail(rule, construct, call.Pos(), "float format %s is neither 'f' nor an exponent format the grammar was checked against", format)
+				}
+			case fn.Pkg().Path() == "fmt" && (strings.HasPrefix(fn.Name(), "Sprint") || strings.HasPrefix(fn.Name(), "Fprint")):
+				for _, a := range call.Args {
+					if b, ok := p.TypesInfo.TypeOf(a).Underlying().(*types.Basic); ok && b.Info()&types.IsFloat != 0 {
+						n++
+						r.Fail(rule, where+":"+fn.Name(), call.Pos(), "a float is formatted through fmt.%s: %%v/%%g write an explicitly signed exponent for large magnitudes, which ExponentDecimalReal (`%s`) rejects", fn.Name(), body)
+					}
+				}
+			}
+			return true
+		})
+	}
+	_ = n
+	r.Floor(rule, 1)
+}
+
+func atoiSafe(s string) int {
+	n := 0
+	for _, c := range s {
+		if c < '0' || c > '9' {
+			return 0
+		}
+		n = n*10 + int(c-'0')
+	}
+	return n
 }
